@@ -493,6 +493,44 @@ func propC02(c *Ctx) {
 		}
 	}
 
+	// a commit that failed did not happen as far as the task knows: whatever the kind of failure, the step
+	// ends with the error (carrying on would put the next transaction on top of a state that may not exist)
+	{
+		n := 0
+		for _, tx := range m.tx {
+			for _, cm := range m.invokesOn(tx, "Commit") {
+				call, isCall := cm.(*ssa.Call)
+				if !isCall {
+					continue
+				}
+				n++
+				fn := call.Parent()
+				ev, _ := errResult(call)
+				good, why := false, "the error of Commit is not looked at"
+				if ev != nil {
+					isNil, nonNil := nilTestEdges(ev)
+					good = len(nonNil) > 0
+					why = "the failing arm leaves the step with an error"
+					for _, e := range nonNil {
+						if g, w2 := errorArmLeaves(fn, e, isNil, nil); !g {
+							good, why = false, "the failing arm can carry on: "+w2
+						}
+					}
+					// `return tx.Commit(ctx)`: handed to the caller as it is
+					if len(nonNil) == 0 {
+						for _, r := range returnsOf(fn) {
+							vals := returnValues(r)
+							if len(vals) > 0 && stripConv(vals[len(vals)-1]) == ev {
+								good, why = true, "returned to the caller"
+							}
+						}
+					}
+				}
+				c.Check("R2.4", fmt.Sprintf("Converge/commit#%d-error-ends-step", n), call.Pos(), good, why)
+			}
+		}
+	}
+
 	c.Rule("R2.7", "re-attaching logs to a cached block on a retried step is idempotent: a log is dropped only as a duplicate of an attached one", 2)
 	checkLogsAddDedup(c, "R2.7")
 	c.Rule("R2.6", "a reorg unwind leaves no row above the position that remains (positions are per step, rows per block)", 1)
